@@ -24,6 +24,7 @@ class Contract:
         self.globals = kw.pop("globals", {})
         self.requires = _lst(kw.pop("requires", []))
         self.ensures = _lst(kw.pop("ensures", []))
+        self.ensures_assumed = _lst(kw.pop("ensures_assumed", []))  # visible to callers only; not verified (ghost definitions)
         self.raises = kw.pop("raises", {})  # exc -> condition string (pre-state) or True
         self.on_raise = kw.pop("on_raise", {})  # exc -> [clauses]
         self.modifies = kw.pop("modifies", None)  # None = unchecked; list of "self.x" / "g:mod.name" / "entry.mimetype"
@@ -41,6 +42,7 @@ class Contract:
         self.replay = kw.pop("replay", None)
         self.externals = kw.pop("externals", {})
         self.opts = kw.pop("opts", {})
+        self.init = kw.pop("init", {})  # field -> defining expression (class invariant given as an equation)
         if kw:
             raise TypeError("unknown contract keys %r" % list(kw))
 
@@ -131,6 +133,7 @@ class World:
         if os.path.exists(path):
             src = open(path).read()
             tree = ast.parse(src)
+            self.spec_tree = tree
             for st in tree.body:
                 if isinstance(st, ast.FunctionDef):
                     self.specfuncs[st.name] = FuncInfo("spec/specs.py", None, st, ast.get_source_segment(src, st))
@@ -184,8 +187,8 @@ class World:
         if relfile in self._imports:
             return self._imports[relfile]
         tab = {}
-        if relfile in self.repo.files:
-            tree = self.repo.files[relfile][1]
+        if relfile == "spec/specs.py" or relfile in self.repo.files:
+            tree = self.spec_tree if relfile == "spec/specs.py" else self.repo.files[relfile][1]
             for st in ast.walk(tree):
                 if isinstance(st, ast.Import):
                     for a in st.names:
@@ -564,6 +567,8 @@ class World:
         obj.fieldty = dict(self.field_types(clsname))
         obj.fresh_alloc = True
         init = self.repo.resolve_method(clsname, "__init__")
+        while init is not None and _is_passthrough_init(init):
+            init = self.repo.resolve_method(clsname, "__init__", after=init.cls)
         if init is not None:
             self.call_repo(eng, init, [obj] + args, kwargs, clsname, node)
         return obj
@@ -639,7 +644,7 @@ class World:
                 eng.in_callee_model = saved
                 eng.oblige("%s.requires[%d]" % (label, i), eng.truth(eng.eval_str(r, fr)), kind="call-requires", site=getattr(node, "lineno", None), note=r)
                 eng.in_callee_model = True
-                eng.assume(eng.truth(eng.eval_str(r, fr)))
+                eng.assume(eng.eval_merged(lambda r=r: eng.truth(eng.eval_str(r, fr))))
             # pre-state snapshot for old() and for raises conditions
             oldfr = Frame(fi, fr.selfcls, snapshot(locs), fi.relfile)
             oldfr.old = None
@@ -650,8 +655,7 @@ class World:
                 condv = True if cond is True else eng.truth(eng.eval_str(cond, fr))
                 if isinstance(condv, bool) and not condv:
                     continue
-                may = z3.Bool(eng.fresh_name("raises_%s_%s" % (fi.name, exc)))
-                if eng.branch(z3.And(may, zbool(condv)) if not isinstance(condv, bool) else may):
+                if (isinstance(condv, bool) or eng.branch(condv)) and eng.branch_fresh("raises_%s_%s" % (fi.name, exc)):
                     self.havoc_modifies(eng, c, fr, fi)
                     excv = VExc(exc, self.exc_args_for(eng, exc, fi))
                     fr2 = fr
@@ -664,15 +668,36 @@ class World:
             res = self.fresh_result(eng, c, fi)
             fr.locals["result"] = res
             fr.old = oldfr
-            for cl in c.ensures:
+            defined = set()
+            if c.ensures_assumed:
+                eng.assumptions_used.add("caller-visible ghost definition of %s: %s" % (fi.qualname, "; ".join(c.ensures_assumed)))
+            for cl in c.ensures + c.ensures_assumed:
                 tree = self.parse_expr(cl)
-                # definitional ghost update:  ghost.X == <expr>  with ghost.X in modifies
-                if (isinstance(tree, ast.Compare) and len(tree.ops) == 1 and isinstance(tree.ops[0], ast.Eq)
-                        and isinstance(tree.left, ast.Attribute) and isinstance(tree.left.value, ast.Name)
-                        and tree.left.value.id == "ghost" and ("ghost." + tree.left.attr) in (c.modifies or [])):
-                    eng.ghost[tree.left.attr] = eng.eval(tree.comparators[0], fr)
-                    continue
-                eng.assume(eng.truth(eng.eval_str(cl, fr)))
+                guard = None
+                if (isinstance(tree, ast.Call) and isinstance(tree.func, ast.Name) and tree.func.id == "implies"
+                        and isinstance(tree.args[1], ast.Compare) and isinstance(tree.args[1].left, ast.Attribute)
+                        and isinstance(tree.args[1].left.value, ast.Name)
+                        and ("%s.%s" % (tree.args[1].left.value.id, tree.args[1].left.attr)) in (c.modifies or [])):
+                    # conditional definition: implies(G, X.f == E)
+                    if not eng.branch(eng.eval_merged(lambda t=tree: eng.truth(eng.eval(t.args[0], fr)))):
+                        continue
+                    tree = tree.args[1]
+                # definitional update:  X.f == <expr>  (or `is`) with X.f (or X.*) in modifies: assign, do not assume
+                if (isinstance(tree, ast.Compare) and len(tree.ops) == 1 and isinstance(tree.ops[0], (ast.Eq, ast.Is))
+                        and isinstance(tree.left, ast.Attribute) and isinstance(tree.left.value, ast.Name)):
+                    base, attr = tree.left.value.id, tree.left.attr
+                    mods = c.modifies or []
+                    if ("%s.%s" % (base, attr)) in mods or (base + ".*") in mods:
+                        val = eng.eval_merged(lambda t=tree: eng.eval(t.comparators[0], fr))
+                        if base == "ghost":
+                            eng.ghost[attr] = val
+                        else:
+                            tgt = eng.force(fr.locals[base])
+                            tgt.fields[attr] = val
+                            tgt.unset.discard(attr)
+                        defined.add("%s.%s" % (base, attr))
+                        continue
+                eng.assume(eng.eval_merged(lambda cl=cl: eng.truth(eng.eval_str(cl, fr))))
             return res
         finally:
             eng.in_callee_model = saved
@@ -701,9 +726,14 @@ class World:
                 g = m[6:]
                 if g in eng.ghost and not (isinstance(eng.ghost[g], VList) and eng.ghost[g].concrete()):
                     eng.ghost[g] = eng.fresh_like(eng.ghost[g], "hv_ghost_" + g)
+            elif m.endswith(".*"):
+                obj = eng.force(fr.locals.get(m[:-2]))
+                if isinstance(obj, VObj) and not getattr(obj, "fresh_alloc", False):
+                    for f in list(obj.fields):
+                        obj.fields[f] = eng.fresh_like(obj.fields[f], "hv_%s_%s" % (obj.name, f))
             elif "." in m:
-                base, f = m.split(".", 1)
-                obj = eng.force(fr.locals.get(base))
+                base, f = m.rsplit(".", 1)
+                obj = eng.force(eng.eval_str(base, fr))
                 if isinstance(obj, VObj):
                     ty = obj.fieldty.get(f) or c.fields.get(f)
                     if f in obj.fields and ty is None:
@@ -731,8 +761,9 @@ class World:
                 return VBool(False)
             ty = obj.fieldty.get(a)
             if ty is not None and ty.startswith("maybe:") and not getattr(obj, "fresh_alloc", False):
+                src = getattr(obj, "live", None) or obj
                 try:
-                    v = eng.entry_value(obj, a, e)
+                    v = eng.entry_value(src, a, e)
                 except Raised:
                     obj.unset.add(a)
                     return VBool(False)
@@ -836,8 +867,12 @@ class World:
             eng.frame_stack.append(fr)
             if c.setup:
                 c.setup(eng, fr)
+            for fld, expr in c.init.items():
+                base, attr = fld.split(".", 1) if "." in fld else ("self", fld)
+                tgt = eng.force(eng.eval_str(base, fr))
+                tgt.fields[attr] = eng.eval_str(expr, fr)
             for r in c.requires:
-                eng.assume(eng.truth(eng.eval_str(r, fr)))
+                eng.assume(eng.eval_merged(lambda r=r: eng.truth(eng.eval_str(r, fr))))
             # pre-state snapshot
             oldfr = Frame(fi, fr.selfcls, snapshot(locs), fi.relfile)
             oldfr.contract = c
@@ -869,7 +904,7 @@ class World:
                 post.locals["raised"] = NONE
                 for i, cl in enumerate(ensures):
                     nm = "%s.ensures[%d]" % (label, i) if not canary else "%s.canary" % label
-                    eng.oblige(nm, eng.truth(eng.eval_str(cl, post)), kind="ensures" if not canary else "canary", note=cl)
+                    eng.oblige(nm, _clause(eng, cl, post), kind="ensures" if not canary else "canary", note=cl)
             else:
                 exc = raised.exc
                 post.locals["raised"] = exc
@@ -880,15 +915,38 @@ class World:
                     if world.exc_isa(exc.cls, en):
                         allowed = True
                         if cond is not True:
-                            eng.oblige("%s.raises[%s].condition" % (label, en), eng.truth(eng.eval_str(cond, oldfr)), kind="raises", site=raised.site, note=cond)
+                            eng.oblige("%s.raises[%s].condition" % (label, en), eng.eval_merged(lambda: eng.truth(eng.eval_str(cond, oldfr))), kind="raises", site=raised.site, note=cond)
                         for j, cl in enumerate(c.on_raise.get(en, []) + c.on_raise.get("*", [])):
-                            eng.oblige("%s.on_raise[%s][%d]" % (label, en, j), eng.truth(eng.eval_str(cl, post)), kind="on_raise", site=raised.site, note=cl)
+                            eng.oblige("%s.on_raise[%s][%d]" % (label, en, j), _clause(eng, cl, post), kind="on_raise", site=raised.site, note=cl)
                         break
                 if not allowed:
                     eng.oblige("%s.raises-only-declared" % label, False, kind="raises", site=raised.site, note="%s escapes (raised at line %s); declared: %s" % (exc.cls, raised.site, sorted(c.raises)))
 
         eng.run_all(body)
         return eng
+
+
+def _clause(eng, cl, fr):
+    """Truth of a contract clause; a clause whose evaluation raises does not hold."""
+    try:
+        return eng.eval_merged(lambda: eng.truth(eng.eval_str(cl, fr)))
+    except Raised as r:
+        return False
+
+
+def _is_passthrough_init(fi):
+    """def __init__(self, *args, **kwargs): super().__init__(*args, **kwargs)"""
+    a = fi.node.args
+    if not (a.vararg and a.kwarg and len(a.args) == 1):
+        return False
+    body, _ = strip_dropped(fi.node.body)
+    if len(body) != 1 or not isinstance(body[0], ast.Expr) or not isinstance(body[0].value, ast.Call):
+        return False
+    call = body[0].value
+    f = call.func
+    return (isinstance(f, ast.Attribute) and f.attr == "__init__" and isinstance(f.value, ast.Call)
+            and isinstance(f.value.func, ast.Name) and f.value.func.id == "super"
+            and len(call.args) == 1 and isinstance(call.args[0], ast.Starred) and len(call.keywords) == 1 and call.keywords[0].arg is None)
 
 
 def _typeis(v, t):
